@@ -24,6 +24,7 @@
 (*               initial uniform strategy in the first pass, the final     *)
 (*               strategy in the last pass), and always from a             *)
 (*               distribution over the infoset's actions                   *)
+(*   DrawnPossible  the outcome drawn has a positive weight                *)
 (*   CounterOK   the draw belongs to this pass: its site's cache was reset *)
 (*               exactly once per completed pass / advance                 *)
 (*   FreqOK      for every (site kind, weight vector) tallied at least 200 *)
@@ -63,6 +64,11 @@ WeightsOK(r, d) ==
           /\ (IF d.exact THEN IsDist(d.w) ELSE ApproxDist(d.w))
           /\ (np = 0 => d.exact /\ RatSeq(d.w) = (IF b.inj THEN RatSeq(b.cur[p][d.info]) ELSE Uniform(Len(d.w))))
           /\ (np + 1 = b.passes /\ "final" \in DOMAIN b => RatSeq(d.w) = RatSeq(b.final[p][d.info]))
+
+\* an outcome of weight zero is never drawn (decided on the floating-point weights presented to the sampler: `pos`; and on
+\* the exact weights where they are logged exactly)
+DrawnPossible(d) == /\ d.pos = 1
+                    /\ (d.exact => d.w[d.ix][1] > 0)
 
 \* the reset counter of the draw's site: chance caches are reset after every pass; in the external
 \* method a player's cache is reset when that player is advanced, i.e. after its own pass
@@ -112,7 +118,8 @@ SPass == /\ IsEvent("pass")
          /\ np < b.passes
          \* "= TRUE": evaluate as a plain predicate (TLC would otherwise split disjunctions into successors)
          /\ PassOK(Rec[l]) = TRUE
-         /\ (\A j \in 1..Len(Rec[l].draws) : WeightsOK(Rec[l], Rec[l].draws[j]) /\ CounterOK(Rec[l], Rec[l].draws[j])) = TRUE
+         /\ (\A j \in 1..Len(Rec[l].draws) : WeightsOK(Rec[l], Rec[l].draws[j]) /\ CounterOK(Rec[l], Rec[l].draws[j])
+                                              /\ DrawnPossible(Rec[l].draws[j])) = TRUE
          /\ np' = np + 1
          /\ tally' = BumpAll(tally, Rec[l].draws, 1)
          /\ pairs' = BumpPairs(pairs, Rec[l].draws, PairsOf(Rec[l].draws))
